@@ -398,6 +398,77 @@ def long_check(case):
     return Res(v, o=suffix, tr=ntr)
 
 
+# ------------------------------------------------------------------ what else lies in the folder / how the file is named
+def folder_cases(tier, seed):
+    return [(kind, place, suffix, sort) for kind in ("3B2", "NP2.4") for place in ("uuid+decoy", "symlink", "dots-in-folder") for suffix in (".bin", ".cbin") for sort in (True, False)]
+
+
+def folder_check(case):
+    """the recording's own metadata decide gains and geometry - not a metadata file of another acquisition that happens to lie in the same folder or next to a link's target"""
+    import os
+    import shutil
+    kind, place, suffix, sort = case
+    d = os.path.join(synth.proc_scratch(), "c01folder")
+    shutil.rmtree(d, ignore_errors=True)
+    sess = os.path.join(d, "sess.ap.lf.imec_probe00" if place == "dots-in-folder" else "sess")
+    os.makedirs(sess)
+    k = 6
+    # rows descending in file order: sorting is a real permutation (NP1 sites sit on the checkerboard: even rows columns 0 / 2, odd rows 1 / 3)
+    sites = [(i % 4, 5 - i, i % 2) if kind == "NP2.4" else (0, 5 - i, ((5 - i) % 2) + 2 * (i % 2)) for i in range(k)]
+    gains = [(synth.GAINS[(i * 3) % 8], 250) for i in range(k)] if synth.family(kind) == "NP1" else None
+    ns = 40
+    raw = ((np.arange(ns)[:, None] * 37 + np.arange(k + 1)[None, :] * 1013) % 4001 - 2000).astype(np.int16)
+    stem = "rec_g0_t0.imec0.ap"
+    fbin = synth.write_recording(sess, stem, raw, synth.meta_items(kind, sites, ns, gains=gains))
+    if suffix == ".cbin":
+        sr0 = spikeglx.Reader(fbin)
+        sr0.compress_file(keep_original=False, n_threads=1, quiet=True, check_after_compress=False)
+        sr0.close()
+        fbin = fbin.replace(".bin", ".cbin")
+    companions = [fbin.replace(suffix, ".meta")] + ([fbin.replace(".cbin", ".ch")] if suffix == ".cbin" else [])
+    # the decoy: same probe, other gains, sites in the reverse order, another length
+    decoy_sites = sites[::-1]
+    decoy_gains = [(synth.GAINS[(i * 5 + 1) % 8], 125) for i in range(k)] if gains else None
+    decoy = synth.meta_text(synth.meta_items(kind, decoy_sites, ns + 9, gains=decoy_gains, **({} if gains else {"vrange": 0.62, "maxint": 2048})))
+    if place == "uuid+decoy":
+        uid = "0f1e2d3c-1111-4222-8333-444455556666"
+        new = []
+        for f in [fbin] + companions:
+            root, ext = os.path.splitext(f)
+            os.rename(f, "%s.%s%s" % (root, uid, ext))
+            new.append("%s.%s%s" % (root, uid, ext))
+        fbin = new[0]
+        open(os.path.join(sess, stem + ".meta"), "w").write(decoy)
+    elif place == "symlink":
+        store = os.path.join(d, "store")
+        os.makedirs(store)
+        tgt = os.path.join(store, stem + suffix)          # same name in the store folder, with ANOTHER metadata file next to it
+        os.rename(fbin, tgt)
+        os.symlink(tgt, fbin)
+        open(os.path.join(store, stem + ".meta"), "w").write(decoy)
+    v = []
+    s2v = synth.ref_s2v(kind, "ap", k, 1, gains=gains)
+    order = (synth.ref_sort_order(sites) if sort else list(range(k))) + [k]
+    exp = refmodel.calibrated(raw, s2v)[:, order]
+    ctx = "%s %s recording, %s, sort=%s" % (kind, suffix, {"uuid+decoy": "UUID in the dataset names and a UUID-less metadata file of another acquisition in the folder",
+                                                         "symlink": "data file is a symbolic link into a folder holding another acquisition's metadata",
+                                                         "dots-in-folder": "session folder named sess.ap.lf.imec_probe00"}[place], sort)
+    try:
+        sr = spikeglx.Reader(fbin, sort=sort)
+        got = sr[:, :]
+        g = sr.geometry
+        sr.close()
+        if tuple(np.shape(got)) != exp.shape or not refmodel.calib_close(np.asarray(got), exp):
+            v.append(("folder:%s:values" % place, "%s: the voltages are not float32(raw) x the recording's own volts-per-bit in the expected channel order (shape %r, expected %r)" % (ctx, np.shape(got), exp.shape)))
+        rows = [sites[i][1] for i in order[:k]]
+        if [int(r) for r in np.asarray(g["row"])] != rows:
+            v.append(("folder:%s:geometry" % place, "%s: geometry rows %r, the recording's own site table gives %r" % (ctx, np.asarray(g["row"]).astype(int).tolist(), rows)))
+    except Exception as e:
+        v.append(("folder:%s:exc:%s" % (place, type(e).__name__), "%s: %s: %s" % (ctx, type(e).__name__, e)))
+    shutil.rmtree(d, ignore_errors=True)
+    return Res(v, o=(kind, place, suffix), tr=1)
+
+
 # ------------------------------------------------------------------ every int16 value through every gain class
 def value_cases(tier, seed):
     out = []
@@ -479,6 +550,8 @@ CHECK = {
                "on the primary configurations, core x core on the others)", cases=sel_cases, check=sel_check, setup=_setup),
         Clause("geometry", "column i is geometry entry i; order by shank,row,-col", cases=geom_cases, check=geom_check),
         Clause("kept-results", "arrays returned by earlier reads stay valid after later reads", cases=hist_cases, check=hist_check),
+        Clause("folder-neighbours", "UUID dataset names next to a UUID-less metadata file of another acquisition; data file symlinked into a folder holding another acquisition's metadata; "
+               "band names and dots in the folder name: gains and geometry come from the recording's own metadata", cases=folder_cases, check=folder_check),
         Clause("values", "all 65536 int16 values x every gain class x bin/cbin", cases=value_cases, check=value_check),
         Clause("long-reads", "a recording longer than every block size mined from the reader's source: strided / reversed slices, integers at each threshold", cases=long_cases, check=long_check),
     ],
